@@ -278,8 +278,35 @@ def c03_marker(ctx):
         ctx.fail(o2, Site(b, 0, 0), "set_computed does not stamp the marker with its current_timestamp argument")
 
 
+def c03_epoch_cmp(ctx):
+    """Epochs identify sessions: the engine never orders them, it only asks `same epoch?`."""
+    prog = ctx.prog
+    o = ctx.ob("C03.g", "epochs-compared-for-equality-only", "K3", "every comparison of a Timestamp in the engine is an equality / inequality test")
+    n = 0
+    for b in prog.all_bodies(["qbice"]):
+        for s in b.calls(lambda f, t: bool(re.search(r"core::cmp::(PartialOrd::(lt|le|gt|ge|partial_cmp)|Ord::(cmp|max|min))$", f["path"]))):
+            st = s.node["fn"].get("self_ty", "")
+            if st.endswith("database::Timestamp") or st.endswith("database::LastVerified") or st.endswith("database::PendingBackwardProjection"):
+                ctx.touch(b)
+                ctx.fail(o, s, "%s orders two epochs (%s): `verified in an earlier session` is not `verified now` — work would be skipped or repeated across sessions" % (
+                    b.name, s.node["fn"]["path"].rsplit("::", 1)[-1]))
+        for s in b.calls(lambda f, t: bool(re.search(r"core::cmp::PartialEq::(eq|ne)$", f["path"]))):
+            if s.node["fn"].get("self_ty", "").endswith("database::Timestamp") and not b.rec.get("from_expansion") and "::{impl#" not in b.key.split("::")[-2:][0]:
+                n += 1
+        # raw u64 comparisons of the inner value
+        for st in b.assigns(lambda st: st["rv"]["k"] == "bin" and st["rv"]["op"] in ("Lt", "Le", "Gt", "Ge")):
+            for side in ("a", "b"):
+                ap = df.access_path(b, st.node["rv"][side]) if df.op_place(st.node["rv"][side]) else []
+                if any(x in ("last_verified", "timestamp", "pending_backward_projection") for x in ap):
+                    ctx.fail(o, st, "%s orders two epochs with `%s`" % (b.name, st.node["rv"]["op"]))
+    o.sites = n
+    if n < 4:
+        ctx.fail(o, "(program)", "expected >= 4 equality tests on Timestamp in the engine (fast path, double check, marker x2), found %d" % n)
+
+
 def run(ctx):
     ctx.run_clause("C03.f", c03_marker)
+    ctx.run_clause("C03.g", c03_epoch_cmp)
     ctx.run_clause("C03.a", c03_inputs)
     ctx.run_clause("C03.b", c03_propagation)
     ctx.run_clause("C03.d", c03_repair)
